@@ -73,6 +73,11 @@ func infoFor(fn *ssa.Function) *fnInfo {
 
 type BoundExceeded struct{ what string }
 
+// PathBound: one path (not the job) ran more than pathSteps instructions — the unwinding assertion of the
+// engine.  The driver asks the solver for an input of that path and the input is run natively under a
+// time limit: a native hang is a termination violation, a native run that ends is a path too long for the bound.
+type PathBound struct{ st *State }
+
 // Worker executes one job: its own solver, budgets and result records.
 type Worker struct {
 	eng           *Engine
@@ -86,6 +91,7 @@ type Worker struct {
 	maxDepth      int
 	fnSeen        map[*ssa.Function]int
 	noMerge       bool
+	pathSteps     int
 	mergeConcrete bool
 	nameCtr       map[string]int
 	prefix        []int // pre-assigned choices (unused in shard mode)
@@ -317,6 +323,10 @@ func (w *Worker) run(f *frame, work *[]*frame, outs *[]Outcome) {
 		}
 		in := f.block.Instrs[f.ip]
 		w.tick()
+		f.st.steps++
+		if f.st.steps > w.pathSteps && w.pathSteps > 0 {
+			panic(PathBound{st: f.st})
+		}
 		if w.eng.verbose {
 			w.curInstr = in.String()
 		}
